@@ -18,6 +18,7 @@ import (
 	"runtime"
 	"sort"
 	"strings"
+	"time"
 
 	"github.com/ontio/ontology/common"
 	"github.com/ontio/ontology/common/config"
@@ -125,6 +126,7 @@ type layoutCase struct {
 	failed   bool
 	valCtr   int
 	counters map[string]int64
+	beat     *kvl.Beat
 }
 
 func (lc *layoutCase) count(s string) { lc.counters[s]++ }
@@ -314,6 +316,7 @@ func (lc *layoutCase) check(phase string) {
 	}
 	lc.phase = phase
 	lc.count("state_checks")
+	defer lc.beat.Tick()
 	if p := vf.Catch(func() { lc.checkInner() }); p != nil {
 		lc.report(lc.opKind+":panic:check:phase="+phase, fmt.Sprint(p))
 	}
@@ -800,6 +803,11 @@ func runLayoutCase(r *vf.Run, rng *vf.RNG, idx int) {
 
 	lc.s = kvl.AcquireStack()
 	defer lc.s.Release()
+	lc.beat = layerWatchdog.Begin(func() interface{} {
+		return map[string]interface{}{"case": lc.idx, "addresses": lc.addrHex(), "layout": lc.layout, "script": lc.script, "phase": lc.phase,
+			"stuck": "the last entry of script (or the state check after it) never returned"}
+	})
+	defer lc.beat.End()
 	if err := lc.materialize(); err != nil {
 		r.Inconclusive("cannot build layout: " + err.Error())
 		return
@@ -888,6 +896,8 @@ func runLayoutCase(r *vf.Run, rng *vf.RNG, idx int) {
 	}
 }
 
+var layerWatchdog *kvl.Watchdog
+
 // runStorageLayer is the storage-layer oracle of C44.
 func runStorageLayer(r *vf.Run, rng *vf.RNG) {
 	// main-net rules: destroyed-contract tracking starts at height 11 700 000, so both the
@@ -899,8 +909,10 @@ func runStorageLayer(r *vf.Run, rng *vf.RNG) {
 		r.Inconclusive("main-net destroyed-contract tracking height is 0: the 'tracking inactive' branch is unreachable")
 	}
 
+	layerWatchdog = kvl.NewWatchdog(r, 60*time.Second)
 	n := vf.N(4000, 60000)
 	vf.Parallel(n, runtime.NumCPU(), func(i int) { runLayoutCase(r, rng.Sub(uint64(i)), i) })
+	layerWatchdog.Stop()
 	kvl.ClosePool()
 
 	for _, p := range []string{"-", "v"} {
